@@ -107,6 +107,7 @@ theorem inv_step (g : Geo) (h : g.rawZeroTest = false) (s : St) (hs : Inv g s) (
   | beamspread => exact inv_runQueries g h _ s hs
   | revBeamspread => exact inv_runQueries g h _ s hs
   | transRefl => exact inv_runQueries g h _ s hs
+  | revTransRefl => exact inv_runQueries g h _ s hs
 
 theorem inv_run (g : Geo) (h : g.rawZeroTest = false) (ops : List Op) :
     ∀ s, Inv g s → Inv g (run g s ops) := by
@@ -163,6 +164,7 @@ theorem step_transparent (g : Geo) (h : g.rawZeroTest = false) (s : St) (hs : In
   | beamspread => exact runQueries_transparent g h _ s hs
   | revBeamspread => exact runQueries_transparent g h _ s hs
   | transRefl => exact runQueries_transparent g h _ s hs
+  | revTransRefl => exact runQueries_transparent g h _ s hs
 
 /-- after any history, every operation answers what it answers on a fresh object -/
 theorem history_transparent (g : Geo) (h : g.rawZeroTest = false) (ops : List Op) (op : Op) :
